@@ -194,10 +194,18 @@ func (e *Exec) trimSpace(s StrV) StrV {
 		return StrV{Chars: cs, IsCh: true}
 	}
 	// SMT string over the input alphabet (only ' ' is a space there)
-	if e.decide(tf.Or(tf.PrefixOf(tf.Str(" "), s.T), tf.SuffixOf(tf.Str(" "), s.T))) {
-		return StrV{T: tf.UF("trimspace", SStr, s.T)}
+	// peel spaces one at a time (strings are short: the loops are bounded by the length bound of fresh strings)
+	cur := s.T
+	for i := 0; i < 16 && e.decide(tf.PrefixOf(tf.Str(" "), cur)); i++ {
+		cur = tf.Substr(cur, tf.Int(1), tf.Sub(tf.StrLen(cur), tf.Int(1)))
 	}
-	return s
+	for i := 0; i < 16 && e.decide(tf.SuffixOf(tf.Str(" "), cur)); i++ {
+		cur = tf.Substr(cur, tf.Int(0), tf.Sub(tf.StrLen(cur), tf.Int(1)))
+	}
+	if e.decide(tf.Or(tf.PrefixOf(tf.Str(" "), cur), tf.SuffixOf(tf.Str(" "), cur))) {
+		e.unsupported("TrimSpace of a string with more than 16 spaces at one end")
+	}
+	return StrV{T: cur}
 }
 
 // sprintf renders the subset of verbs the repository uses.
